@@ -235,6 +235,19 @@ PROPS["C10"] = {
 }
 
 
+PROPS["C11"] = {
+    "level": "exploration",
+    "engine": "vsched",
+    "level_text": "one primitive per case (Mutex, Semaphore, Signal, Monitor, Thread), 2-4 logical threads with generated programs of lock (nested) / tryLock / unlock, signal / wait / timed wait / tryWait, set / reset / wait / timed wait, guarded wait / set / tryLock, start (function and member) / join, under sampled schedules of the deterministic scheduler with generated spurious condition wake-ups, EINTR on timed semaphore waits and time-outs that fire at any moment in virtual time; the contracts are history invariants evaluated after every operation and, for blocked threads, at the scheduler's quiescence verdict",
+    "level_note": "trusted: the pthread / semaphore model inside vsched/rt.cpp (mutex ownership and recursion attribute, condition waiter sets, semaphore counts, virtual clock) which replaces glibc; what is verified is libnstd's use of these primitives (flag protocols, loops, deadline arithmetic, attributes); schedules are sampled",
+    "technique": "randomised deterministic scheduling of generated thread programs with history invariants and quiescence judgement",
+    "rule": "case = primitive, initial value, 2-4 thread programs, 10 schedules (60 when replaying) cycling through four strategies. Invariants: Mutex occupancy <=1 with re-entrance, tryLock fails only when another thread owns it, no blocked thread at the end; Semaphore successful waits <= initial + signals, no waiter blocked at quiescence with positive count; Signal wait true only if set since the last reset, no waiter blocked at quiescence while set; Monitor successful waits <= sets and a set issued while a waiter has the monitor releases a waiter; timed waits return false only after their time-out in virtual time; Thread::join returns the function's result after its last step. "
+            "Non-trivial = a schedule with >=3 context switches and consecutive operations of different threads on one location inside the primitive, or a generated spurious wake-up / time-out / EINTR event; distinct by case text hash.",
+    "assumptions": ["sequential consistency", "POSIX semantics of the modelled primitives"],
+    "parts": [opf("sync", ["harness/c11_sync.cpp"], {"cases": 6000, "maxsize": 20}, {"cases": 80000, "maxsize": 32, "workers": 16}, flavour="sched", deps=["harness/vs_common.hpp"])],
+}
+
+
 # property modules kept in separate files (props_cXX.py define PROPS["CXX"] using the helpers above)
 import glob as _glob, os as _os
 for _f in sorted(_glob.glob(_os.path.join(_os.path.dirname(_os.path.abspath(__file__)), "props_c*.py"))):
